@@ -189,7 +189,7 @@ def classify(D, att):
 def run_shard(ctx):
     ws = real.Workspace()
     rng = ctx.rng
-    budget = ctx.share(3000, 80000)
+    budget = ctx.share(5000, 400000)
     done = 0
     while done < budget:
         bits = rng.choice([64, 64, 32])
